@@ -12,3 +12,7 @@ import Barril.Props.C05
 import Barril.Model.Mgr
 import Barril.Proofs.MgrLemmas
 import Barril.Props.C17
+import Barril.Model.Str
+import Barril.Model.StrRender
+import Barril.Proofs.StrLemmas
+import Barril.Props.C20
